@@ -1,13 +1,16 @@
 //! C20: string views, numeric comparators, iterators, join/split.
 //! M+S cells (Coq mechanism model + theorems, cases evaluated in Coq): decimal_strcmp, realnum_strcmp, join (all entry
-//! points), split (LineSplitter both strategies, FastStr::split), words, LineProcessor (default configuration),
-//! ASCII case conversion, SortedVecLexIterator.
-//! S-only cells (direct oracle against std): FastStr, StreamingLexIterator, SortableStrVec, ZoSortedStrVec, unicode,
-//! LineProcessor configurations.
+//! points), split (LineSplitter both strategies, FastStr::split), words (+ the word-boundary helpers), LineProcessor
+//! (default configuration and every skip_empty / trim / preserve-endings configuration), ASCII case conversion,
+//! SortedVecLexIterator, and since the extension (c20_x.rs): FastStr, unicode, StreamingLexIterator, ZoSortedStrVec,
+//! SortableStrVec_core (storage, binary_search, the comparison kernel of the release-mode sort).
+//! S-only cell (direct oracle against std): SortableStrVec (its sorting algorithms).
 #[path = "c20_more.rs"]
 mod more;
 #[path = "c20_wide.rs"]
 mod wide;
+#[path = "c20_x.rs"]
+mod x;
 use crate::util::*;
 use serde_json::{json, Value};
 use std::cmp::Ordering;
@@ -18,10 +21,10 @@ use zipora::string::{
 };
 
 const HEADER: &str = r#"From ZV.Common Require Import Base Run.
-From ZV.C20 Require Import Model ModelStr Cases.
+From ZV.C20 Require Import Model ModelStr Cases CasesX.
 Open Scope N_scope.
-Definition case_t : Type := Cases.case.
-Definition ok (c : case_t) : bool := Cases.case_ok c.
+Definition case_t : Type := CasesX.xcase.
+Definition ok (c : case_t) : bool := CasesX.xcase_ok c.
 "#;
 
 fn ord_code(o: Option<Ordering>) -> i64 {
@@ -181,6 +184,7 @@ fn faststr_case(cx: &mut Ctx, a: &[u8], b: &[u8]) {
         Err(p) => cx.sum.fail(cell, None, cj, &format!("panicked: {}", p)),
         Ok(bad) => if !bad.is_empty() { cx.sum.fail(cell, None, cj, &bad.join("; ")); }
     }
+    x::fast_emit(cx, a, b, false);
 }
 
 fn join_case(cx: &mut Ctx, sep: &str, parts: &[String]) {
@@ -317,6 +321,7 @@ fn words_case(cx: &mut Ctx, text: &[u8]) {
             more::push_coq(cx, term, cj);
         }
     }
+    x::bound_emit(cx, text);
 }
 
 fn lex_iter_case(cx: &mut Ctx, strings: &[String], probes: &[String]) {
@@ -492,6 +497,8 @@ fn run_one(cx: &mut Ctx, c: &Value) {
         Some("lines") => lines_case(cx, c["text"].as_str().unwrap_or("")),
         Some("case") => case_conv(cx, &bytes_of(&c["text"])),
         Some("split") => split_case(cx, c["text"].as_str().unwrap_or(""), c["d"].as_u64().unwrap_or(44) as u8),
+        Some("radixdeep") => x::radix_deep_case(cx, c["n"].as_u64().unwrap_or(40) as usize, c["len"].as_u64().unwrap_or(100) as usize, c["shape"].as_u64().unwrap_or(0)),
+        Some("cmpk") => x::cmpk_emit(cx, &bytes_of(&c["a"]), &bytes_of(&c["b"])),
         Some("faststr_deep") => more::faststr_deep(cx, &bytes_of(&c["a"])),
         Some("streaming") => more::streaming_case(cx, &strs_of(&c["strings"]), &bytes_of(&c["terms"]), c["cut_last"].as_bool().unwrap_or(false)),
         Some("sortable") => more::sortable_case(cx, &strs_of(&c["strings"]), &strs_of(&c["probes"])),
@@ -509,16 +516,21 @@ fn run_one(cx: &mut Ctx, c: &Value) {
 
 pub fn run(args: &Args) {
     let mut cx = Ctx {
-        sum: Summary::new("C20", "numeric comparators: all pairs of strings over {+,-,0,1,9,.,a} up to length 3 (quick) / 4 (thorough) against an exact integer-arithmetic value oracle, antisymmetry on all pairs, transitivity on all triples up to length 2, plus generated long numerals (equal values written differently); FastStr: generated pairs plus the deep oracle on every length 0..=130 (24 alignments, every constructor, one byte changed at every position, every cut point, find of every substring start); join/split/words/lines/case/lex-iterator histories: generated lists and texts (empties, duplicates, bytes >= 0x80, all line-ending mixes) against std, a sample evaluated in Coq against the models; StreamingLexIterator/SortableStrVec (up to 1300 strings, 2^20-byte strings)/ZoSortedStrVec/unicode/LineProcessor configurations against std; breadth families (c20_wide.rs, oracle only): pre-parsed comparators on every pair of valid bodies up to length 3 x sign flags, numerals of 17..2^20 digits against the padded digit-row order, FastStr conversions / collections / strings of 131..2^20+1 bytes (one and two bytes changed around the powers of two, planted bytes, views), join over arbitrary bytes and item types with one JoinBuilder used repeatedly and lists of 2^16 / 2^20 parts, one LineSplitter over many lines, LineProcessor presets x buffer sizes 0..256 KiB x maximum line length x chunked readers with operation histories on one processor (early stop, failing handler, batches, fields, counting) and line_utils, non-UTF-8 input, StreamingLexIterator histories with refused operations and lines around the reader buffer, sorted lists of 2^16 strings, SortableStrVec histories (14 operations, clone, reserve / shrink_to_fit, SORTABLE_CACHE_BLOCK 0..4, SORTABLE_PREFETCH) and vectors around 512 / 10000 / 2^16 strings, ZoSortedStrVec layouts above 2^16 and 2^20 bits, unicode cursor histories and long texts; corpus of past witnesses first; non-trivial = at least one operand of length >= 2 (or list of >= 2)"),
+        sum: Summary::new("C20", "numeric comparators: all pairs of strings over {+,-,0,1,9,.,a} up to length 3 (quick) / 4 (thorough) against an exact integer-arithmetic value oracle, antisymmetry on all pairs, transitivity on all triples up to length 2, plus generated long numerals (equal values written differently); FastStr: generated pairs plus the deep oracle on every length 0..=130 (24 alignments, every constructor, one byte changed at every position, every cut point, find of every substring start); join/split/words/lines/case/lex-iterator histories: generated lists and texts (empties, duplicates, bytes >= 0x80, all line-ending mixes) against std, a sample evaluated in Coq against the models; StreamingLexIterator/SortableStrVec (up to 1300 strings, 2^20-byte strings)/ZoSortedStrVec/unicode/LineProcessor configurations against std; breadth families (c20_wide.rs, oracle only): pre-parsed comparators on every pair of valid bodies up to length 3 x sign flags, numerals of 17..2^20 digits against the padded digit-row order, FastStr conversions / collections / strings of 131..2^20+1 bytes (one and two bytes changed around the powers of two, planted bytes, views), join over arbitrary bytes and item types with one JoinBuilder used repeatedly and lists of 2^16 / 2^20 parts, one LineSplitter over many lines, LineProcessor presets x buffer sizes 0..256 KiB x maximum line length x chunked readers with operation histories on one processor (early stop, failing handler, batches, fields, counting) and line_utils, non-UTF-8 input, StreamingLexIterator histories with refused operations and lines around the reader buffer, sorted lists of 2^16 strings, SortableStrVec histories (14 operations, clone, reserve / shrink_to_fit, SORTABLE_CACHE_BLOCK 0..4, SORTABLE_PREFETCH) and vectors around 512 / 10000 / 2^16 strings, ZoSortedStrVec layouts above 2^16 and 2^20 bits, unicode cursor histories and long texts; extension families (c20_x.rs): model ties for FastStr at every length 0..130 and on the generated pairs (find / order / prefix tests / common prefix / hash value / 28 slicing calls incl. out-of-range and usize::MAX arguments), word-boundary helpers at every position, LineProcessor configurations x batch sizes 0..3, Utf8ToUtf32Iterator histories (all the way forward, all the way back, reset, a mix), StreamingLexIterator histories with refused operations, SortableStrVec push/get, binary_search with cache_block_size 1..4 and 256, ZoSortedStrVec on sorted / unsorted / NUL-containing lists, and the comparison kernel of the release-mode sort against slice order on every generated pair plus two opposite byte changes inside one chunk at every length; corpus of past witnesses first; non-trivial = at least one operand of length >= 2 (or list of >= 2)"),
         shards: CoqShards::new(HEADER, 500),
         budget: if args.thorough { 12000 } else { 1800 },
         emit: true,
     };
     let mut rng = Rng::new(args.seed);
+    x::set_thorough(args.thorough);
     if let Some(f) = &args.replay {
         let v: Value = serde_json::from_str(&std::fs::read_to_string(f).expect("replay file")).expect("json");
         let c = if v.get("case").is_some() { v["case"].clone() } else { v };
-        run_one(&mut cx, &c);
+        if c["cell"].as_str() == Some("radixdeep_child") {
+            x::radix_deep_child(&args.out, c["n"].as_u64().unwrap_or(40) as usize, c["len"].as_u64().unwrap_or(100) as usize, c["shape"].as_u64().unwrap_or(0));
+        } else {
+            run_one(&mut cx, &c);
+        }
         let sh = cx.shards.write(&args.out);
         cx.sum.write(&args.out, sh);
         return;
@@ -601,7 +613,8 @@ pub fn run(args: &Args) {
         if i < 3 { cx.sum.sample(json!({"a": String::from_utf8_lossy(&a), "b": String::from_utf8_lossy(&b)})); }
     }
     // --- FastStr
-    cx.budget = if args.thorough { 30000 } else { 4000 };
+    // + the allowances of the extension families (c20_x.rs), which do not go through push_coq
+    cx.budget = if args.thorough { 30000 + 6 * 2161 + 60 } else { 4000 + 2161 + 60 };
     // deep oracle: every length 0..=130, differently built contents (high-bit bytes, tiny alphabet, boundary bytes)
     for rep in 0..(if args.thorough { 8 } else { 1 }) {
         for n in 0..=130usize {
@@ -610,6 +623,23 @@ pub fn run(args: &Args) {
             let b: Vec<u8> = (0..n).map(|_| *rng.pick(&[b'a', b'b', 0x80, 0xff, 0x7f, 0])).collect();
             more::faststr_deep(&mut cx, &b);
             if rep == 0 && n % 13 == 0 { more::faststr_deep(&mut cx, &vec![b'a'; n]); }
+            if rep == 0 {
+                // model tie at every length (all chunk counts and remainders of the hash paths, needles inside / flipped at the end)
+                x::fast_emit(&mut cx, &a, &a[n / 3..(n / 3 + n / 4 + 1).min(n)], true);
+                if n >= 2 {
+                    let mut c = a.clone();
+                    let (i, j) = (n / 2, (n / 2 + 1 + n % 7).min(n - 1));
+                    c[i] = c[i].wrapping_add(1);
+                    c[j] = c[j].wrapping_sub(1);
+                    x::cmpk_emit(&mut cx, &a, &c);
+                    x::cmpk_emit(&mut cx, &a[..n - n / 5], &a);
+                }
+                if n % 3 == 0 {
+                    let mut nd = b[n / 2..].to_vec();
+                    if let Some(l) = nd.last_mut() { *l ^= 0x80; }
+                    x::fast_emit(&mut cx, &b, &nd, true);
+                }
+            }
         }
     }
     let nfs = if args.thorough { 60000 } else { 4000 };
@@ -623,6 +653,7 @@ pub fn run(args: &Args) {
             _ => rand_bytes_biased(&mut rng, 6),
         };
         faststr_case(&mut cx, &a, &b);
+        x::cmpk_emit(&mut cx, &a, &b);
         if i % 2 == 0 { wide::faststr_extra(&mut cx, &a, &b); }
     }
     // exhaustive small find/compare universe
@@ -718,13 +749,35 @@ pub fn run(args: &Args) {
     more::sortable_long_case(&mut cx, (1 << 20) - 1);
     more::sortable_long_case(&mut cx, 1 << 20);
     more::sortable_long_case(&mut cx, (1 << 20) + 5);
+    // LineProcessor trimming with every Unicode White_Space character (and neighbours that are not white space) at both ends:
+    // ties the model's utf8_trim to str::trim
+    {
+        let ws = ["\u{9}", "\u{b}", "\u{c}", "\u{20}", "\u{85}", "\u{a0}", "\u{1680}", "\u{2000}", "\u{2005}", "\u{200a}", "\u{2028}", "\u{2029}", "\u{202f}", "\u{205f}", "\u{3000}"];
+        let not_ws = ["\u{200b}", "\u{180e}", "\u{84}", "\u{a1}", "\u{2060}", "\u{feff}", "\u{1f}", "\u{2027}", "\u{3001}", "\u{167f}"];
+        x::reserve_lines_cfg(60);
+        for (k, w) in ws.iter().enumerate() {
+            let n = not_ws[k % not_ws.len()];
+            let text = format!("{w}a{w}{w}\n{w}\n{n}{w}b{w}{n}\r\n{w}{n}{w}\n{w}c", w = w, n = n);
+            for cfg in [2u64, 3, 7] { more::lines_cfg_case(&mut cx, &text, cfg, (k % 3) as usize, ","); }
+        }
+        for (k, n) in not_ws.iter().enumerate() {
+            let text = format!("{n}\n {n} \n{n}x{n}\n", n = n);
+            more::lines_cfg_case(&mut cx, &text, 3 + 4 * (k as u64 % 2), 1, "");
+        }
+    }
+    // radix_sort on strings with long common runs (recursion depth of the MSD sort), each in a child process
+    for (n, len, shape) in [(40usize, 6000usize, 0u64), (33, 63, 0), (33, 64, 0), (33, 65, 0), (64, 100_000, 0), (4500, 0, 1)] {
+        if !args.thorough && n * len.max(n / 2) > 3_000_000 && args.seed % 2 == 1 && shape == 0 { continue; }
+        x::radix_deep_case(&mut cx, n, len, shape);
+    }
     wide::fixed_families(&mut cx, args);
-    cx.sum.cell_status("FastStr", "S-only");
-    cx.sum.cell_status("StreamingLexIterator", "S-only");
+    cx.sum.cell_status("FastStr", "M+S");
+    cx.sum.cell_status("StreamingLexIterator", "M+S");
     cx.sum.cell_status("SortableStrVec", "S-only");
-    cx.sum.cell_status("ZoSortedStrVec", "S-only");
-    cx.sum.cell_status("unicode", "S-only");
-    cx.sum.cell_status("LineProcessor_configs", "S-only");
+    cx.sum.cell_status("ZoSortedStrVec", "M+S");
+    cx.sum.cell_status("SortableStrVec_core", "M+S");
+    cx.sum.cell_status("unicode", "M+S");
+    cx.sum.cell_status("LineProcessor_configs", "M+S");
     cx.sum.dist_max("coq_cases", cx.shards.len() as u64);
     let sh = cx.shards.write(&args.out);
     cx.sum.write(&args.out, sh);
